@@ -513,6 +513,7 @@ def writer_facts(repo: Path):
     wa = fns.get("write_attributes")
     skip = None
     loop_ok = False
+    none_after_skip = False
     for n in ast.walk(wa):
         if isinstance(n, ast.For) and ast.unparse(n.iter) == "entity.attribute_map.items()":
             loop_ok = True
@@ -523,11 +524,26 @@ def writer_facts(repo: Path):
                                 and isinstance(m.comparators[0], ast.List) and skip is None:
                             skip = [e.value for e in m.comparators[0].elts]
                     t = st.test
-                    shape_ok = (isinstance(t, ast.BoolOp) and isinstance(t.op, ast.Or) and len(t.values) == 2
-                                and ast.unparse(t.values[0]).startswith("key in [") and ast.unparse(t.values[1]) == "value is None")
-                    if not shape_ok:
-                        raise Refuse("write_attributes: the skip test is no longer exactly `key in [...] or value is None` "
-                                     f"(now: {ast.unparse(t)[:200]}): some values are never written")
+                    form_a = (isinstance(t, ast.BoolOp) and isinstance(t.op, ast.Or) and len(t.values) == 2
+                              and ast.unparse(t.values[0]).startswith("key in [") and ast.unparse(t.values[1]) == "value is None")
+                    form_b = isinstance(t, ast.Compare) and ast.unparse(t).startswith("key in [")
+                    if form_b:
+                        # the None case must then be handled by its own statement right after: delete the attribute, continue
+                        ok_b = False
+                        for nb in ast.walk(n):
+                            if isinstance(nb, ast.If) and ast.unparse(nb.test) == "value is None" and not nb.orelse and len(nb.body) == 2 \
+                                    and isinstance(nb.body[1], ast.Continue) and isinstance(nb.body[0], ast.If) \
+                                    and ast.unparse(nb.body[0].test) == "key in entity_handle.attrs" and not nb.body[0].orelse \
+                                    and len(nb.body[0].body) == 1 and ast.unparse(nb.body[0].body[0]) == "del entity_handle.attrs[key]" \
+                                    and nb.lineno > st.lineno:
+                                ok_b = True
+                        if not ok_b:
+                            raise Refuse("write_attributes: the skip test no longer covers None and no `if value is None: "
+                                         "<delete the attribute>; continue` follows it: None would reach the type dispatch")
+                        none_after_skip = True
+                    elif not form_a:
+                        raise Refuse("write_attributes: the skip test is neither `key in [...] or value is None` nor `key in [...]` followed by "
+                                     f"the None-clearing statement (now: {ast.unparse(t)[:200]}): some values are never written")
             src = ast.unparse(n)
             if "getattr(entity, attr)" not in src or "entity_handle.attrs.create(key" not in src:
                 raise Refuse("write_attributes: loop no longer reads getattr(entity, attr) / writes attrs.create(key, ...)")
@@ -564,7 +580,7 @@ def writer_facts(repo: Path):
         raise Refuse("H5Writer.fetch_handle: the project-node shortcut `if entity.name == base: return base_handle` was not found")
     scalar_chain, chain_line = scalar_branches(fns["write_attributes"])
     # does a None value clear the attribute before the skip (`if value is None and key in handle.attrs: del handle.attrs[key]`)?
-    none_clears = False
+    none_clears = none_after_skip
     for n in ast.walk(fns["write_attributes"]):
         if isinstance(n, ast.If) and ast.unparse(n.test) == "value is None and key in entity_handle.attrs" \
                 and len(n.body) == 1 and ast.unparse(n.body[0]) == "del entity_handle.attrs[key]" and not n.orelse:
